@@ -203,7 +203,7 @@ fn main() {
             if o.prop == "C04" {
                 let mut rng = rng::Rng::new(o.seed);
                 let cases = streams::deep_none_cases(&mut rng, if o.tier == "thorough" { 60000 } else { 6000 });
-                run_rs_stream(&o, &mut rep, "deep-none", "a None that arises deep inside (missing field, index out of range, step into None, none literal) under 1..5 enclosing operators, each applied with the None-valued expression in either operand position and an arbitrary pool value (including ones that alone would be a type error) in the other; the expected outcome (None / false / true) is computed from the property's rule and checked on the implementation alone, then against the model", false, cases, "full");
+                run_rs_stream(&o, &mut rep, "deep-none", "a None that arises deep inside (missing field, index out of range, step into None, none literal, a field / index of the `facts` root when the whole input is None) under 1..5 enclosing operators, each applied with the None-valued expression in either operand position and an arbitrary pool value (including ones that alone would be a type error) in the other; the expected outcome (None / false / true) is computed from the property's rule and checked on the implementation alone, then against the model", false, cases, "full");
             }
             if o.prop == "C01" || o.prop == "C02" {
                 run_rs_stream(&o, &mut rep, "long-chains", "left-nested chains of 10 / 33 / 40 / 70 / 150 operands for every binary operator (one operator, or two of a family alternating) with a special operand (None, a type error, zero, an extreme, NaN) at the start, in the middle or at the end; lists and maps of that many items, access paths and unary towers up to 60 deep", false, streams::chain_cases(), if o.prop == "C01" { "range" } else { "full" });
@@ -242,7 +242,7 @@ fn main() {
             run_rs_stream(&o, &mut rep, "large-data", "lists and maps of 10 / 33 / 40 / 70 / 150 items built and indexed at the last and past-the-last position, key lookup in them, access paths of up to 60 alternating field / index steps into nested data and one step further", false, big, "full");
             let mut rng = rng::Rng::new(o.seed);
             let cases = streams::resolve_cases(&mut rng, o.tier == "thorough");
-            run_rs_stream(&o, &mut rep, "paths", "6 inputs (nested maps/lists with near-miss keys: case variants, prefixes, the key `facts`, the empty key; non-map; None) x 11 bases (references, `facts`, symbols, unknown names) x every access path of length <= 2 (thorough 3) over 11 steps (present/absent keys, indices len-1/len/len+1, wrong step kind) x symbol tables with re-registration; random longer paths", false, cases, "full");
+            run_rs_stream(&o, &mut rep, "paths", "7 inputs (nested maps/lists with near-miss keys: case variants, prefixes, the key `facts`, the empty key, top-level keys that contain a dot next to the data a path of that spelling reaches; non-map; None) x 20 bases (references, `facts`, symbols, unknown names, names containing a dot — also built through Expr::reff / Expr::symbol) x every access path of length <= 2 (thorough 3) over 11 steps (present/absent keys, indices len-1/len/len+1, wrong step kind) x symbol tables with re-registration; random longer paths", false, cases, "full");
         }
         "C11" => {
             let mut rng = rng::Rng::new(o.seed);
